@@ -1,5 +1,6 @@
 # Copyright 2024, Battelle Energy Alliance, LLC All Rights Reserved.
 from montepy.data_inputs.data_input import DataInputAbstract
+from montepy.input_parser import syntax_node
 from montepy.input_parser.thermal_parser import ThermalParser
 from montepy import mcnp_object
 from montepy.errors import *
@@ -34,6 +35,25 @@ class ThermalScatteringLaw(DataInputAbstract):
         else:
             if material:
                 self._parent_material = material
+            self._generate_default_tree()
+
+    def _generate_default_tree(self):
+        """
+        The syntax tree of an input made from scratch (``Material.add_thermal_scattering``).
+        """
+        classifier = syntax_node.ClassifierNode()
+        classifier.prefix = self._generate_default_node(str, "MT", None)
+        classifier.number = self._generate_default_node(int, None)
+        data = syntax_node.ListNode("thermal laws")
+        self._scattering_laws = data.nodes
+        self._tree = syntax_node.SyntaxNode(
+            "thermal scattering",
+            {
+                "start_pad": syntax_node.PaddingNode(),
+                "classifier": classifier,
+                "data": data,
+            },
+        )
 
     @staticmethod
     def _class_prefix():
